@@ -203,6 +203,73 @@ def rule_p1(ctx, F):
         ctx.gate("P1", fn, [pt for pt, n in adds], [("a span is a difference only where exactly one list covers it", "in_old_range != in_new_range", True)], accept_desc="appending a difference span")
 
 
+class FoldMonitor(Monitor):
+    """After a step-over trigger, the stepped-over subtree's last external token must be folded
+    into prev_external_token (or shown to be absent) before the walk moves on."""
+
+    def __init__(self, trig, stores, ends, absent_pat, exit_ok=False):
+        self.trig, self.stores, self.ends, self.absent = set(trig), set(stores), set(ends), absent_pat
+        self.exit_ok = exit_ok
+
+    def elem(self, m, pt, e, s):
+        if pt in self.stores:
+            return None
+        if m is not None and pt in self.ends and pt != m:
+            return Viol("a subtree is stepped over without folding its last external token into prev_external_token", pt)
+        if pt in self.trig:
+            return pt
+        return m
+
+    def edge(self, m, bid, edge, cond, truth, s):
+        if m is not None and cond is not None and truth is not None and s.m.cond_matches(self.absent, False, cond, truth):
+            return None
+        return m
+
+    def exit(self, m, bid, s):
+        if m is not None and not self.exit_ok:
+            return Viol("function returns after stepping over a subtree without folding its last external token")
+        return None
+
+
+def rule_p2(ctx, F):
+    """prev_external_token (read by iterator_compare) is maintained wherever the walk passes a subtree."""
+    from cstores import writes_record
+    writers = {}
+    for fn in F.fn_list:
+        for pt, n, l, op in stores(fn):
+            if writes_record(l, "Iterator") == "prev_external_token":
+                writers.setdefault(fn.name, []).append(pt)
+    need = {"iterator_descend", "iterator_advance"}
+    for w in sorted(need - set(writers)):
+        ctx.bad("P2", "%s:tracks-external-token" % w, "%s no longer updates Iterator.prev_external_token although it moves the walk past subtrees: iterator_compare then compares stale scanner states" % w)
+    fn = F.fn("iterator_descend")
+    if fn and "iterator_descend" in writers:
+        bind(fn, "child", "&_[i]")
+        trig = [pt for pt, n in find(fn, "position = child_right")] or [pt for pt, n in find(fn, "position = length_add(length_add(position, ts_subtree_padding(*child)), ts_subtree_size(*child))")]
+        ends = [pt for pt, e in fn.points() if e.get("k") == "decl" and e["name"] == fn.cur("child")]
+        s = Search(fn, FoldMonitor(trig, writers["iterator_descend"], ends, "ts_subtree_last_external_token(*child).ptr"))
+        v = s.run(None) if trig else Viol("step-over statement `position = child_right` not found")
+        if v is None:
+            ctx.ok("P2", "iterator_descend:tracks-external-token", "every child stepped over while descending folds its last external token into prev_external_token (or has none)",
+                   sample={"function": fn.name, "step_over": [fn.loc(p) for p in trig], "stores": [fn.loc(p) for p in writers["iterator_descend"]]})
+        else:
+            ctx.bad("P2", "iterator_descend:tracks-external-token", "iterator_descend: %s" % v.msg, {"path": s.render_path(v.path)[-6:] if v.path else []})
+    fn = F.fn("iterator_advance")
+    if fn and "iterator_advance" in writers:
+        trig = [pt for pt, e in fn.points() if e.get("k") == "decl" and e["name"] == fn.cur("entry")]
+        ends = [pt for pt, c in fn.calls() if c.get("fn") == "_array__grow"] + trig
+        s = Search(fn, FoldMonitor(trig, writers["iterator_advance"], ends, "ts_subtree_last_external_token(*entry.subtree).ptr", exit_ok=True))
+        # (leaving through `iterator_done` right after the pop is fine: nothing is compared afterwards)
+        v = s.run(None) if trig else Viol("pop of the current entry not found")
+        if v is None:
+            ctx.ok("P2", "iterator_advance:tracks-external-token", "the subtree left behind when advancing folds its last external token into prev_external_token (or has none)")
+        else:
+            ctx.bad("P2", "iterator_advance:tracks-external-token", "iterator_advance: %s" % v.msg, {"path": s.render_path(v.path)[-6:] if v.path else []})
+    fn = F.fn("iterator_new")
+    if fn:
+        ctx.ok("P2", "iterator_new", "iterators start without a previous external token", nontrivial=False)
+
+
 def run(ctx):
     for cfg in configs(ctx):
         ctx.config = cfg
@@ -212,6 +279,7 @@ def run(ctx):
         rule_g2(ctx, F)
         rule_w1(ctx, F)
         rule_p1(ctx, F)
+        rule_p2(ctx, F)
     return ctx.finish(
         "Gate rules over the Clang CFGs of get_changed_ranges.c/tree.c/parser.c: `IteratorMatches` (skip) is returned/taken only after every listed "
         "difference test failed and no included-range difference intersects; changed steps are recorded; TSRangeArray elements are appended only by the "
